@@ -587,8 +587,6 @@ theorem fromPoints_separated (pts : List (Coord × Coord)) (ny nx pad : Int) (hn
 
 /-! ### structure of `compute_reproject_roi` (same-CRS branch) -/
 
-def normAlign (align : Option Int) : Option Int := if align = some 0 then none else align
-def padOr1 (padding : Option Int) : Int := match padding with | none => 1 | some p => p
 
 theorem reprojectLinear_cases {src dst : Shape} {fwd A : Aff} {n ttol stol : Rat} {padding align : Option Int} {p : Plan}
     (h : reprojectLinear src dst fwd A n ttol stol padding align = .ok p) :
@@ -620,7 +618,6 @@ theorem reprojectLinear_cases {src dst : Shape} {fwd A : Aff} {n ttol stol : Rat
           subst h
           refine ⟨rfl, rfl, rfl, Or.inl ⟨rfl, ?_⟩⟩
           simp only [padOr1, normAlign, ht.1, Prod.mk.eta]
-          cases padding <;> rfl
         | true =>
           simp only [hcp] at h
           by_cases h1 : rs = 1
@@ -644,7 +641,6 @@ theorem reprojectLinear_cases {src dst : Shape} {fwd A : Aff} {n ttol stol : Rat
       subst h
       refine ⟨rfl, rfl, rfl, Or.inl ⟨rfl, ?_⟩⟩
       simp only [padOr1, normAlign, Prod.mk.eta]
-      cases padding <;> rfl
 
 
 /-! ### numeric helpers on non-negative input -/
@@ -689,5 +685,36 @@ theorem zoomOutDim_spec (n rs : Int) (hn : 1 ≤ n) (hrs : 1 ≤ rs) :
       have e2 : ((n : Rat) / rs + 1) * rs = n + rs := by field_simp
       linarith
     exact_mod_cast this
+
+
+/-- case analysis of `_pick_read_scale` -/
+theorem pickReadScale_cases (scale tol : Rat) (rs : Int) (h : pickReadScale scale tol = .ok rs) :
+    (scale < 1 ∧ rs = 1) ∨
+    (1 ≤ scale ∧ (rs = scale.floor ∨
+      (rs = scale.floor + 1 ∧ rabs (scale - scale.floor - 1) < tol ∧ scale - scale.floor > 1 / 2))) := by
+  unfold pickReadScale at h
+  split_ifs at h with c1 c2
+  · left; simp only [Except.ok.injEq] at h; exact ⟨c2, h.symm⟩
+  · right
+    simp only [Except.ok.injEq] at h
+    have hs : 1 ≤ scale := not_lt.mp c2
+    have hfl : (1 : Rat) ≤ (scale.floor : Rat) := by
+      have : (1 : Int) ≤ scale.floor := by rw [Rat.le_floor_iff]; exact_mod_cast hs
+      exact_mod_cast this
+    refine ⟨hs, ?_⟩
+    subst h
+    simp only [maybeInt, splitFloat_nonneg scale (by linarith)]
+    split_ifs with c3 c4 c5
+    · right
+      have e : (scale.floor : Rat) + 1 = ((scale.floor + 1 : Int) : Rat) := by push_cast; ring
+      have h0 : (0 : Rat) ≤ ((scale.floor + 1 : Int) : Rat) := by push_cast; linarith
+      refine ⟨?_, c4, c3⟩
+      show trunc ((scale.floor : Rat) + 1) = scale.floor + 1
+      rw [e, trunc_nonneg _ h0, floor_intCast']
+    · left; rw [trunc_nonneg _ (by linarith)]
+    · left
+      show trunc (scale.floor : Rat) = scale.floor
+      rw [trunc_nonneg _ (by linarith), floor_intCast']
+    · left; rw [trunc_nonneg _ (by linarith)]
 
 end OdcGeo.C03
